@@ -62,6 +62,14 @@ class RT(Schema):
 
 
 def roundtrip(V, field, value, label):
+    """`value` may be a thunk: every component has been realised by then, and the value, the encoder (C code, isoformat)
+    and the parse back run on concrete data outside CrossHair's tracing (its datetime / Decimal stand-ins are not the real
+    classes the encoder registry knows)"""
+    with V.notrace():
+        _roundtrip(V, field, value() if callable(value) else value, label)
+
+
+def _roundtrip(V, field, value, label):
     inst = RT(**{field: value})
     try:
         text = json.dumps(inst, cls=JSONEncoder)
@@ -117,7 +125,7 @@ def scalars(V):
         for i in range(n):
             c = V.int('c%d' % i, 0, 0x2FFF)
             cps.append(split(V, 'c%d' % i, c, [0x20, 0x22, 0x5c, 0x7f, 0x100, 0x2028]))
-        roundtrip(V, 's', ''.join(chr(c) for c in cps), 'str')
+        roundtrip(V, 's', lambda: ''.join(chr(c) for c in cps), 'str')
     elif k == 'float':
         roundtrip(V, 'f', V.pick('f', [0.0, -0.0, 1.5, -2.25, 1e-7, 1e22, 1.7976931348623157e308, 5e-324, 0.1, 1 / 3, float('inf'),
                                         float('-inf')]), 'float')
@@ -131,7 +139,7 @@ def scalars(V):
     else:
         hi, lo = V.int('u_hi', 0, 2 ** 64 - 1), V.int('u_lo', 0, 2 ** 64 - 1)
         hi, lo = split(V, 'u_hi', hi, [1, 2 ** 63]), split(V, 'u_lo', lo, [1, 2 ** 63])
-        roundtrip(V, 'u', uuid.UUID(int=(hi << 64) | lo), 'uuid')
+        roundtrip(V, 'u', lambda: uuid.UUID(int=(hi << 64) | lo), 'uuid')
 
 
 # ------------------------------------------------------------------ temporal values
@@ -156,7 +164,8 @@ def sym_clock(V, tag='', ms_only=False):
 @ob('temporal/date', marks=['date'], budget=(40, 150), exhaustive=False,
     bounds='date with year 1..9999, month, day 1..28 as solver ints split at boundaries')
 def t_date(V):
-    roundtrip(V, 'd', date(*sym_date(V)), 'date')
+    ymd = sym_date(V)
+    roundtrip(V, 'd', lambda: date(*ymd), 'date')
 
 
 @ob('temporal/datetime', marks=['naive', 'utc', 'east', 'west'], budget=(90, 300), exhaustive=False,
@@ -169,7 +178,7 @@ def t_datetime(V):
     h, mi, s, us = sym_clock(V)
     tzk = V.pick('tz', ['naive', 'offset'])
     if tzk == 'naive':
-        roundtrip(V, 'dt', datetime(y, m, d, h, mi, s, us), 'naive')
+        roundtrip(V, 'dt', lambda: datetime(y, m, d, h, mi, s, us), 'naive')
         return
     off = V.int('offset_minutes', -1439, 1439)
     if off < 0:
@@ -181,14 +190,14 @@ def t_datetime(V):
     if off % 60 == 0:
         pass
     off = V.concrete('offset_minutes', off)
-    roundtrip(V, 'dt', datetime(y, m, d, h, mi, s, us, tzinfo=timezone(timedelta(minutes=off))), label)
+    roundtrip(V, 'dt', lambda: datetime(y, m, d, h, mi, s, us, tzinfo=timezone(timedelta(minutes=off))), label)
 
 
 @ob('temporal/time', marks=['time'], budget=(40, 150), exhaustive=False,
     bounds='time to millisecond precision: hour, minute, second, millisecond as solver ints split at boundaries')
 def t_time(V):
     h, mi, s, us = sym_clock(V, ms_only=True)
-    roundtrip(V, 't', time(h, mi, s, us), 'time')
+    roundtrip(V, 't', lambda: time(h, mi, s, us), 'time')
 
 
 @ob('temporal/timedelta', marks=['positive', 'negative', 'zero'], budget=(60, 200), exhaustive=False,
@@ -197,8 +206,8 @@ def t_timedelta(V):
     days = split(V, 'days', V.int('days', -3, 3), [-1, 0, 1])
     secs = split(V, 'seconds', V.int('seconds', 0, 86399), [1, 60, 3600, 86399])
     us = split(V, 'us', V.int('us', 0, 999999), [1, 1000, 100000, 999999])
-    td = timedelta(days=days, seconds=secs, microseconds=us)
-    roundtrip(V, 'td', td, 'zero' if td == timedelta(0) else 'negative' if td < timedelta(0) else 'positive')
+    label = 'zero' if (days == 0 and secs == 0 and us == 0) else 'negative' if days < 0 else 'positive'
+    roundtrip(V, 'td', lambda: timedelta(days=days, seconds=secs, microseconds=us), label)
 
 
 # ------------------------------------------------------------------ Decimal up to 15 significant digits
@@ -211,15 +220,16 @@ def decimal_(V):
     coef = split(V, 'coef', coef, [10 ** (nd - 1) + 1, 10 ** nd - 1])
     exp = split(V, 'exp', V.int('exp', -10, 5), [-1, 0, 1])
     neg = V.bool('negative')
-    value = Decimal((1 if neg else 0, tuple(int(c) for c in str(coef)), exp))
-    inst = RT(dec=value)
-    text = json.dumps(inst, cls=JSONEncoder)
-    try:
-        back = RT.__from__(text)
-    except exc.ParseError as e:
-        V.fail('roundtrip:parse-back-failed:decimal', 'dec=%r encoded as %s does not parse back: %s' % (value, text, str(e)[:200]))
-    got = back['dec']
-    V.check(type(got) is Decimal and got == value, 'roundtrip:changed:decimal', lambda: 'dec=%r encoded as %s parsed back as %r' % (value, text, got))
+    with V.notrace():
+        value = Decimal((1 if neg else 0, tuple(int(c) for c in str(coef)), exp))
+        inst = RT(dec=value)
+        text = json.dumps(inst, cls=JSONEncoder)
+        try:
+            back = RT.__from__(text)
+        except exc.ParseError as e:
+            V.fail('roundtrip:parse-back-failed:decimal', 'dec=%r encoded as %s does not parse back: %s' % (value, text, str(e)[:200]))
+        got = back['dec']
+        V.check(type(got) is Decimal and got == value, 'roundtrip:changed:decimal', 'dec=%r encoded as %s parsed back as %r' % (value, text, got))
     V.cover('negative' if neg else 'integral' if exp >= 0 else 'fraction')
 
 
@@ -243,10 +253,10 @@ def containers(V):
     elif k == 'dict':
         roundtrip(V, 'di', {V.pick('k%d' % i, ['a', 'b', '', '1', 'é']): v for i, v in enumerate(ints)}, 'dict')
     elif k == 'nested':
-        roundtrip(V, 'inner', Inner(x=ints[0] if ints else 0, when=when), 'nested')
+        roundtrip(V, 'inner', lambda: Inner(x=ints[0] if ints else 0, when=when), 'nested')
     elif k == 'kids':
-        roundtrip(V, 'kids', [Inner(x=v, when=when) for v in ints], 'kids')
+        roundtrip(V, 'kids', lambda: [Inner(x=v, when=when) for v in ints], 'kids')
     elif k == 'datetimes':
         roundtrip(V, 'dts', [when] * n if when else [], 'datetimes')
     else:
-        roundtrip(V, 'tdm', {('k%d' % i): timedelta(days=v, microseconds=v * 1000) for i, v in enumerate(ints)}, 'durations')
+        roundtrip(V, 'tdm', lambda: {('k%d' % i): timedelta(days=v, microseconds=v * 1000) for i, v in enumerate(ints)}, 'durations')
